@@ -334,6 +334,27 @@ def gen_cyclic_host_case(rng):
             'cycles': ['MA'], 'seed': rng.randrange(10 ** 6), 'start': [], 'ligands': [[f"MA#0-{host['resnames'][r - 1]}#{r}", 'LIG#1']]}
 
 
+def gen_boundary_direction_case(rng):
+    """a chain that starts right above the lower face of the box (start grid given) and must grow upwards: trial steps
+    downwards cross the periodic boundary, and the direction of growth is that of the step, not of the wrapped coordinates"""
+    mt = systems.gen_moltype(rng, 'MA', nres=rng.randint(4, 6), shape='path', resnames=['RA'] * 6)
+    L = round(rng.uniform(2.8, 3.2), 2)
+    axis = rng.randrange(3)
+    nrm = [0.0, 0.0, 0.0]
+    nrm[axis] = rng.choice([1.0, 2.0, 0.5])
+    ang = rng.choice([45.0, 60.0, 75.0])
+    pts = []
+    for u in (0.5, 1.5, 2.5):
+        for v in (0.5, 1.5, 2.5):
+            p = [u, v]
+            p.insert(axis, 0.04)
+            pts.append(p)
+    lines = ['[ molecule ]', 'MA 0 1', '[ rw_restriction ]', f'RA 1 {mt["nres"] + 1} {nrm[0]} {nrm[1]} {nrm[2]} {ang}']
+    return {'moltypes': [mt], 'molecules': [('MA', 1)], 'box': [L, L, L], 'build': '\n'.join(lines) + '\n',
+            'decl': [{'kind': 'rw', 'resname': 'RA', 'start': 1, 'stop': mt['nres'] + 1, 'normal': nrm, 'angle': ang, 'mols': [0, 1]}],
+            'cycles': [], 'seed': rng.randrange(10 ** 6), 'start': [], 'grid': '\n'.join(' '.join(str(x) for x in p) for p in pts) + '\n'}
+
+
 def gen_inner_restraint_case(rng, d=0.5, tol=5.0, ab=None, seed=None):
     """a distance restraint between two INNER residues of a chain of equal residues (the reference is not where the walk
     starts); with d close to the stretched length of the segment many trial steps fail and the walk steps back over the
@@ -377,6 +398,9 @@ def gen_build_case(rng, ring_with_restraint=False, rw_nonunit=False):
         mts.append(systems.gen_moltype(rng, 'MB', nres=rng.randint(2, 5), shape='path'))
     mols = [('MA', rng.randint(1, 2))] + ([('MB', rng.randint(1, 2))] if len(mts) > 1 else [])
     box = [round(rng.uniform(7, 9), 2) for _ in range(3)]
+    if rw_nonunit and rng.random() < 0.7:
+        # a box the chain does not fit in along the restricted direction: growth steps cross the periodic boundary
+        box = [round(rng.uniform(2.6, 3.4), 2) for _ in range(3)]
     lines, decl = [], []
     nmol = sum(n for _, n in mols)
     mt = mts[0]
@@ -387,6 +411,8 @@ def gen_build_case(rng, ring_with_restraint=False, rw_nonunit=False):
     kinds = rng.sample(['sphere', 'cylinder', 'rectangle', 'rw', 'dist'], rng.randint(1, 3))
     if cyc and (ring_with_restraint or rng.random() < 0.6) and 'dist' not in kinds:
         kinds = ['dist'] + kinds[:1]
+    if cyc:
+        kinds = [k for k in kinds if k != 'rw'] or ['dist']      # a ring cannot close while every step keeps one direction
     if ring_with_restraint:
         kinds = ['dist']
     if rw_nonunit:
@@ -496,7 +522,10 @@ def run_build_case(case, timeout=60):
                                                   f"{np.array(point).tolist()} violates {d['kind']} {d['mode']} {d['c']} {d['p']}")
                         if d['kind'] == 'rw' and selected(d, mol_idx, attrs) and 'cur' in ctxs and not start:
                             rec['selected'] += 1
+                            # the growth step is the displacement from the previous residue under the minimum-image convention
+                            # (the new point is wrapped into the box)
                             step = np.array(point) - ctxs['cur'][3]
+                            step = step - np.array(self.boxsize) * np.round(step / np.array(self.boxsize))
                             nrm = np.array(d['normal'])
                             cosang = np.dot(nrm, step) / (np.linalg.norm(nrm) * np.linalg.norm(step))
                             ang = math.degrees(math.acos(max(-1, min(1, cosang))))
@@ -560,8 +589,9 @@ def run_build_case(case, timeout=60):
              'polyply.src.build_system:BuildSystem.run_system': wrap_run_system}
     top = systems.top_text(case['moltypes'], case['molecules'])
     with systems.Workdir() as wd:
-        res = systems.run_gen_coords(wd, top, seed=case['seed'], hooks=hooks, files={'opts.bld': case['build']},
-                                     build=['opts.bld'], box=box, cycles=case['cycles'], cycle_tol=0.0, maxiter=200,
+        extra = {'grid': 'grid.dat'} if case.get('grid') else {}
+        res = systems.run_gen_coords(wd, top, seed=case['seed'], hooks=hooks, files=dict({'opts.bld': case['build']}, **({'grid.dat': case['grid']} if case.get('grid') else {})),
+                                     build=['opts.bld'], **extra, box=box, cycles=case['cycles'], cycle_tol=0.0, maxiter=200,
                                      start=list(case.get('start') or []), ligands=[list(x) for x in case.get('ligands') or []], timeout=timeout)
     rec['ok'] = res['ok']
     rec['exc'] = None if res['ok'] else f"{res['exc_type']}: {res['exception']}"
@@ -618,12 +648,13 @@ def run(ctx):
     ring_cases(ctx)
     bcases = [c for _, c in core.corpus_cases('C07')]
     # a molecule declared cyclic that also carries a build-file distance restraint: always exercised
+    bcases += [gen_boundary_direction_case(ctx.rng) for _ in range(ctx.n(4, 24))]
     bcases += [gen_cyclic_host_case(ctx.rng) for _ in range(ctx.n(3, 20))]
     bcases += [gen_build_case(ctx.rng, ring_with_restraint=True) for _ in range(ctx.n(3, 20))]
-    bcases[len(bcases) - 2:len(bcases) - 2] = [gen_build_case(ctx.rng, rw_nonunit=True) for _ in range(ctx.n(2, 12))]
+    bcases[len(bcases) - 2:len(bcases) - 2] = [gen_build_case(ctx.rng, rw_nonunit=True) for _ in range(ctx.n(5, 20))]
     bcases += [gen_build_case(ctx.rng) for _ in range(ctx.n(12, 120))]
     if ctx.broken:
-        bcases = bcases[:8] + [c for c in bcases[8:] if c.get('start')][:8]
+        bcases = bcases[:12] + [c for c in bcases[12:] if c.get('start')][:8]
     timeouts = 0
     for case in bcases:
         if timeouts >= 2:
@@ -637,6 +668,8 @@ def run(ctx):
         ctx.feature('e2e_ok' if rec['ok'] else 'e2e_failed')
         if case.get('ligands'):
             ctx.feature('e2e_cyclic_host_with_ligand')
+        if case.get('grid'):
+            ctx.feature('e2e_direction_restriction_at_the_periodic_boundary')
         if case.get('start'):
             ctx.feature('e2e_start_on_restrained_residue_' + ('by_name' if '#0-' not in case['start'][0] else 'with_index'))
         ctx.feature('e2e_restraint_checks', rec['selected'])
